@@ -102,6 +102,12 @@ def curated():
     out.append(D("exclude-uncrossed", [c2, fac("e", A3)], cross(["c", "e"], ["c"], [["Exclude", "e", "b"]]), ["exclude"]))
     out.append(D("sequential-crossed", [e3, d2], cross(["e", "d"], ["e"], [["Sequential", "e"]]), ["sequential"]))
     out.append(D("sequential-uncrossed", [c2, e3], cross(["c", "e"], ["c"], [["Sequential", "e"], ["MinimumTrials", 4]]), ["sequential", "mintrials"]))
+    # --- level names that are not strings (the documentation allows any value; 0 / False / 0.0 are falsy)
+    out.append(D("levels-int-cross", [fac("n", [0, 1, 2])], cross(["n"], ["n"]), ["nonstring-levels"]))
+    out.append(D("levels-int-uncrossed", [c2, fac("n", [0, 100])], cross(["c", "n"], ["c"], [["MinimumTrials", 4]]), ["nonstring-levels", "mintrials"]))
+    out.append(D("levels-int-exclude", [c2, fac("n", [0, 1, 2])], cross(["c", "n"], ["c"], [["Exclude", "n", 0]]), ["nonstring-levels", "exclude"]))
+    out.append(D("levels-bool-atmost", [c2, fac("n", [False, True])], cross(["c", "n"], ["c", "n"], [["AtMostKInARow", 1, "n", False]]), ["nonstring-levels", "atmost"]))
+    out.append(D("levels-int-within", [fac("n", [0, 1]), fac("m", [0, 1]), within_eq("k", "n", "m", [0, 1], [0, 1])], cross(["n", "m", "k"], ["n", "k"]), ["nonstring-levels", "within", "derived-crossed"]))
     # --- derived factors
     cong = within_eq("k", "c", "w", A2, A2)
     w2 = fac("w", A2)
@@ -109,7 +115,14 @@ def curated():
     out.append(D("within-crossed", [c2, w2, cong], cross(["c", "w", "k"], ["c", "k"]), ["within", "derived-crossed"]))
     out.append(D("within-atmost", [c2, w2, cong], cross(["c", "w", "k"], ["c", "w"], [["AtMostKInARow", 1, "k", "same"]]), ["within", "atmost"]))
     out.append(D("within-exclude-derived", [c2, w2, cong], cross(["c", "w", "k"], ["c", "k"], [["Exclude", "k", "same"]], rcc=False), ["within", "exclude"]))
+    # Exclude of a within-trial derived level whose sources are not all crossed (nothing removes it by construction in the combinatoric sampler)
+    u2 = fac("u", A2)
+    out.append(D("within-exclude-derived-uncrossed", [c2, w2, cong], cross(["c", "w", "k"], ["c"], [["Exclude", "k", "same"]]), ["within", "exclude"]))
+    out.append(D("within-exclude-derived-two-uncrossed", [c2, w2, u2, within_eq("k", "w", "u", A2, A2)], cross(["c", "w", "u", "k"], ["c"], [["Exclude", "k", "same"]]), ["within", "exclude"]))
+    out.append(D("within-exclude-source-of-crossed", [c2, w2, cong], cross(["c", "w", "k"], ["c", "k"], [["Exclude", "w", "r"]], rcc=False), ["within", "exclude", "derived-crossed"]))
+    out.append(D("within-exclude-derived-multi", [c2, w2, cong], multi(["c", "w", "k"], [["c"], ["w"]], [["Exclude", "k", "same"]], mode="weight"), ["within", "exclude", "multi", "weight"]))
     tr = transition_rep("t", "c", A2)
+    out.append(D("transition-exclude-within", [c2, w2, cong, tr], cross(["c", "w", "k", "t"], ["c", "t"], [["Exclude", "k", "same"]]), ["within", "exclude", "transition", "preamble"]))
     out.append(D("transition-uncrossed", [c2, tr], cross(["c", "t"], ["c"], [["MinimumTrials", 3]]), ["transition", "mintrials"]))
     out.append(D("transition-crossed", [c2, tr], cross(["c", "t"], ["c", "t"]), ["transition", "derived-crossed", "preamble"]))
     out.append(D("transition-only-crossed", [c2, tr], cross(["c", "t"], ["t"]), ["transition", "derived-crossed", "preamble"]))
@@ -122,6 +135,10 @@ def curated():
     out.append(D("window2-start0", [c2, d2, window_last("v", "c", A2, 2, start=0)], cross(["c", "d", "v"], ["c", "d"]), ["window", "start"]))
     out.append(D("window2-start2", [c2, d2, window_last("v", "c", A2, 2, start=2)], cross(["c", "d", "v"], ["c", "d"]), ["window", "start"]))
     out.append(D("window1-stride2", [c2, d2, window_last("v", "c", A2, 1, stride=2)], cross(["c", "d", "v"], ["c", "d"]), ["window", "stride"]))
+    # two complex-window factors in one block, the strided one listed first and (T - start) not a multiple of its stride
+    out.append(D("window1-stride3+transition", [c2, d2, window_last("v", "c", A2, 1, stride=3), tr], cross(["c", "d", "v", "t"], ["c", "d"], [["AtMostKInARow", 1, "v", "hit"], ["AtMostKInARow", 2, "t", "rep"]]), ["window", "stride", "transition", "two-complex", "atmost"]))
+    out.append(D("window2-stride2+transition", [c2, d2, window_last("v", "c", A2, 2, stride=2), tr], cross(["c", "d", "v", "t"], ["c", "d"], [["AtMostKInARow", 1, "v", "hit"], ["AtMostKInARow", 2, "t", "rep"]]), ["window", "stride", "transition", "two-complex", "atmost"]))
+    out.append(D("transition+window2-stride2", [c2, d2, tr, window_last("v", "d", ["x", "y"], 2, stride=2, first="x")], cross(["c", "d", "t", "v"], ["c", "d"], [["AtMostKInARow", 1, "v", "hit"], ["AtMostKInARow", 2, "t", "rep"]]), ["window", "stride", "transition", "two-complex", "atmost"]))
     out.append(D("window2-crossed", [c2, window_last("v", "c", A2, 2)], cross(["c", "v"], ["c", "v"]), ["window", "derived-crossed", "preamble"]))
     out.append(D("window2-stride2-atmost", [c2, d2, window_last("v", "c", A2, 2, stride=2)],
                  cross(["c", "d", "v"], ["c", "d"], [["AtMostKInARow", 1, "v", "hit"]]), ["window", "stride", "atmost"]))
@@ -171,6 +188,11 @@ def curated():
     out.append(D("multi-transition-post", [c2, d2, tr], multi(["c", "d", "t"], [["c", "t"], ["d"]], mode="weight", alignment="post preamble"), ["multi", "weight", "preamble", "post"]))
     out.append(D("multi-transition-parallel", [c2, d2, tr], multi(["c", "d", "t"], [["c", "t"], ["d"]], mode="weight", alignment="parallel start"), ["multi", "weight", "preamble", "parallel"]))
     out.append(D("multi-transition-parallel-repeat", [c2, d2, tr], multi(["c", "d", "t"], [["c", "t"], ["d"]], mode="repeat", alignment="parallel start"), ["multi", "repeat", "preamble", "parallel"]))
+    # alignment modes with the preamble-bearing crossing NOT first, and in repeat mode / through Merge
+    for al, tag in (("post preamble", "post"), ("parallel start", "parallel"), ("equal preamble", "equalpre")):
+        out.append(D(f"multi-transition-second-{tag}", [c2, d2, tr], multi(["c", "d", "t"], [["d"], ["c", "t"]], mode="weight", alignment=al), ["multi", "weight", "preamble", tag]))
+    out.append(D("multi-transition-post-repeat", [c2, d2, tr], multi(["c", "d", "t"], [["c", "t"], ["d"]], mode="repeat", alignment="post preamble"), ["multi", "repeat", "preamble", "post"]))
+    out.append(D("merge-transition-post", [c2, d2, tr], merge([cross(["c", "t"], ["c", "t"]), cross(["d"], ["d"])], mode="weight", alignment="post preamble"), ["merge", "weight", "preamble", "post"]))
     # --- Nest
     out.append(D("nest-2in2", [c2, d2], nest(cross(["c"], ["c"]), cross(["d"], ["d"])), ["nest"]))
     out.append(D("nest-2in3", [c2, f3], nest(cross(["c"], ["c"]), cross(["f"], ["f"])), ["nest"]))
